@@ -329,8 +329,8 @@ def enum_cases(tier):
 
 @st.composite
 def hyp_cases(draw, tier):
-    spec = draw(gen.forest_specs(max_nodes=16, max_depth=6, max_width=4, min_nodes=3, alphabet=["a", "b", "c", "d", "e"]))
-    if draw(st.sampled_from([0, 1])):
+    spec = draw(gen.forest_specs(max_nodes=16, max_depth=6, max_width=4, min_nodes=3, alphabet=["a", "b", "c", "d", "e"], big=6))
+    if gen.spec_nodes(spec) <= 40 and draw(st.sampled_from([0, 1])):
         # equal-comparing siblings: the data of an earlier sibling under another explicit data_id
         counter = [0]
 
@@ -346,8 +346,29 @@ def hyp_cases(draw, tier):
         eq_(spec)
     n = gen.spec_nodes(spec)
     pool = draw(st.sampled_from([VERDICTS + ["S1"], ["T", "F", "N", "S", "B"], ["T", "F", "S0"], ["T", "F", "N", "N", "F", "X"], ["T", "F"]]))
-    verdicts = draw(st.lists(st.sampled_from(pool), min_size=n, max_size=n))
-    forms = draw(st.lists(st.sampled_from([0, 1, 2, 3]), min_size=n, max_size=n))
+    if n > 40:
+        # a big tree: most of the many siblings get the same verdict (so that many nodes go, or stay, below one
+        # parent), the inner nodes and a few leaves get generated ones
+        base = draw(st.sampled_from(["F", "F", "N", "T", "S"]))
+        verdicts = [base] * n
+        inner = []
+        counter = [0]
+
+        def find_inner(nodes):
+            for nd in nodes:
+                if nd[1]:
+                    inner.append(counter[0])
+                counter[0] += 1
+                find_inner(nd[1])
+
+        find_inner(spec)
+        for i in inner[:12] + draw(st.lists(st.integers(0, n - 1), max_size=6)):
+            verdicts[i] = draw(st.sampled_from(pool))
+        f0 = draw(st.sampled_from([0, 1, 2, 3]))
+        forms = [f0] * n
+    else:
+        verdicts = draw(st.lists(st.sampled_from(pool), min_size=n, max_size=n))
+        forms = draw(st.lists(st.sampled_from([0, 1, 2, 3]), min_size=n, max_size=n))
     start = draw(st.sampled_from([-1, -1, 0, 1, 2, 3]))
     case = {"spec": spec, "verdicts": verdicts, "forms": forms, "start": start}
     if draw(st.sampled_from([0, 0, 1])):
